@@ -171,4 +171,138 @@ example (raw : Bytes) (h : trimSpace raw = [0x3B, 0x20, 0x68]) :
     readIniLine [] ([([], [])], []) 7 raw = .ok ([([], [])], []) :=
   noise_line_is_skipped _ _ _ _ (Or.inr (Or.inl (by rw [h]; rfl)))
 
+/-! ### Noise lines, anywhere in the file -/
+
+
+/-- an entry / a file without the line numbers -/
+def forgetV (v : IniVal) : IniVal := { v with line := 0 }
+def forgetF (f : IniFile) : IniFile := f.map fun p => (p.1, p.2.map forgetV)
+
+/-- two results that differ at most in line numbers (of entries, or of the error) -/
+def SameMeaning : Except GoErr (IniFile × Bytes) → Except GoErr (IniFile × Bytes) → Prop
+  | .ok a, .ok b => forgetF a.1 = forgetF b.1 ∧ a.2 = b.2
+  | .error _, .error _ => True
+  | _, _ => False
+
+def SameMeaningF : Except GoErr IniFile → Except GoErr IniFile → Prop
+  | .ok a, .ok b => forgetF a = forgetF b
+  | .error _, .error _ => True
+  | _, _ => False
+
+theorem forgetF_hasSection (f g : IniFile) (h : forgetF f = forgetF g) (name : Bytes) :
+    iniHasSection f name = iniHasSection g name := by
+  have : (forgetF f).map (·.1) = (forgetF g).map (·.1) := by rw [h]
+  unfold forgetF at this
+  simp only [List.map_map, Function.comp_def] at this
+  unfold iniHasSection
+  have hf : f.any (fun p => decide (p.1 = name)) = (f.map (·.1)).any (fun n => decide (n = name)) := by
+    simp [List.any_map, Function.comp_def]
+  have hg : g.any (fun p => decide (p.1 = name)) = (g.map (·.1)).any (fun n => decide (n = name)) := by
+    simp [List.any_map, Function.comp_def]
+  rw [hf, hg, this]
+
+theorem forgetF_append (f g : IniFile) (h : forgetF f = forgetF g) (x : Bytes × List IniVal) :
+    forgetF (f ++ [x]) = forgetF (g ++ [x]) := by
+  unfold forgetF at *; simp [h]
+
+theorem forgetF_addEntry (f g : IniFile) (h : forgetF f = forgetF g) (sec : Bytes) (v w : IniVal) (hv : forgetV v = forgetV w) :
+    forgetF (iniAddEntry f sec v) = forgetF (iniAddEntry g sec w) := by
+  induction f generalizing g with
+  | nil =>
+    cases g with
+    | nil => simp [iniAddEntry, forgetF, hv]
+    | cons _ _ => simp [forgetF] at h
+  | cons p f ih =>
+    cases g with
+    | nil => simp [forgetF] at h
+    | cons q g =>
+      obtain ⟨pn, pv⟩ := p
+      obtain ⟨qn, qv⟩ := q
+      simp only [forgetF, List.map_cons, List.cons.injEq, Prod.mk.injEq] at h
+      obtain ⟨⟨hn, hvs⟩, ht⟩ := h
+      subst hn
+      unfold iniAddEntry
+      split
+      · simp only [forgetF, List.map_cons, List.map_append, List.map_nil, hvs, hv]
+        congr 1
+      · simp only [forgetF, List.map_cons, hvs]
+        congr 1
+        exact ih g ht
+
+/-- **A line means the same wherever it stands**: its effect on the file read so far does not
+    depend on its line number, nor on the line numbers recorded before. -/
+theorem readIniLine_meaning (file : Bytes) (f g : IniFile) (cur : Bytes) (n m : Nat) (raw : Bytes)
+    (h : forgetF f = forgetF g) :
+    SameMeaning (readIniLine file (f, cur) n raw) (readIniLine file (g, cur) m raw) := by
+  unfold readIniLine
+  simp only
+  split
+  · exact ⟨h, rfl⟩
+  · exact ⟨h, rfl⟩
+  · exact ⟨h, rfl⟩
+  · split
+    · trivial
+    · split
+      · trivial
+      · rw [forgetF_hasSection f g h]
+        split
+        · exact ⟨h, rfl⟩
+        · exact ⟨forgetF_append f g h _, rfl⟩
+  · split
+    · trivial
+    · split
+      · trivial
+      · split
+        · split
+          · exact ⟨forgetF_addEntry f g h cur _ _ rfl, rfl⟩
+          · trivial
+        · exact ⟨forgetF_addEntry f g h cur _ _ rfl, rfl⟩
+
+theorem readIniLines_meaning (file : Bytes) (ls : List Bytes) : ∀ (n m : Nat) (f g : IniFile) (cur : Bytes),
+    forgetF f = forgetF g → SameMeaningF (readIniLines file ls n (f, cur)) (readIniLines file ls m (g, cur)) := by
+  induction ls with
+  | nil => intro n m f g cur h; exact h
+  | cons l ls ih =>
+    intro n m f g cur h
+    have h1 := readIniLine_meaning file f g cur (n + 1) (m + 1) l h
+    unfold readIniLines
+    cases ha : readIniLine file (f, cur) (n + 1) l with
+    | error e =>
+      cases hb : readIniLine file (g, cur) (m + 1) l with
+      | error e' => trivial
+      | ok b => rw [ha, hb] at h1; exact h1.elim
+    | ok a =>
+      cases hb : readIniLine file (g, cur) (m + 1) l with
+      | error e' => rw [ha, hb] at h1; exact h1.elim
+      | ok b =>
+        rw [ha, hb] at h1
+        obtain ⟨hf, hc⟩ := h1
+        obtain ⟨af, ac⟩ := a
+        obtain ⟨bf, bc⟩ := b
+        simp only at hf hc
+        subst hc
+        exact ih (n + 1) (m + 1) af bf ac hf
+
+/-- **Blank lines and comments are ignored, wherever they stand**: inserting a blank line or a
+    `;` / `#` comment line anywhere in a file changes nothing but line numbers — the sections, the
+    entries, their order, and whether the file is rejected are the same. -/
+theorem noise_line_changes_nothing (file : Bytes) (before after : List Bytes) (noise : Bytes)
+    (hn : trimSpace noise = [] ∨ (trimSpace noise).head? = some 0x3B ∨ (trimSpace noise).head? = some 0x23) :
+    ∀ (k : Nat) (st : IniFile × Bytes),
+      SameMeaningF (readIniLines file (before ++ noise :: after) k st) (readIniLines file (before ++ after) k st) := by
+  induction before with
+  | nil =>
+    intro k st
+    simp only [List.nil_append]
+    conv => lhs; unfold readIniLines
+    rw [noise_line_is_skipped file st (k + 1) noise hn]
+    obtain ⟨f, cur⟩ := st
+    exact readIniLines_meaning file after (k + 1) k f f cur rfl
+  | cons l ls ih =>
+    intro k st
+    simp only [List.cons_append]
+    unfold readIniLines
+    cases readIniLine file st (k + 1) l with
+    | error e => trivial
+    | ok st' => exact ih (k + 1) st'
 end GoFlags.C14
